@@ -337,7 +337,7 @@ def s6_convert_single(ctx, ck):
         else:
             ok_rep = isinstance(rep, tuple) and rep[0] == "agg" and rep[2] == arm
         ck.ob("C13-S6", fn, "repeat-%s-carried-over(chord-translated-under-the-same-combination)" % arm, ok_rep)
-    ck.floor("C13-S6", "combination-paths", n, 3)
+    ck.floor("C13-S6", "combination-paths", n, 1)
 
 
 # ---------------------------------------------------------------------------------------------
@@ -489,8 +489,8 @@ def s8_adjust_repeats(ctx, ck):
                 ok = (is_from(mp["from"]) and is_from(mp["to"]) and isinstance(ab, tuple) and ab[0] == "call" and method_name(ab[1]) == "new" and not ab[2]
                       and pushes[0][0] > keypush[0][0] if keypush else False)
             ck.ob("C13-S8", fn, "not-found:one-identity-mapping(to==from,no-absorbing)-with-that-repeat-is-appended", ok)
-    ck.floor("C13-S8", "found-paths", n_hit, 3)
-    ck.floor("C13-S8", "not-found-paths", n_miss, 3)
+    ck.floor("C13-S8", "found-paths", n_hit, 1)
+    ck.floor("C13-S8", "not-found-paths", n_miss, 1)
     # FromSet::new: all but the last key sorted, then the last key
     fsn = ctx.body(FLI + "FromSet::new")
     keys = T("param", 1, fsn.dbg.get(1, ""))
@@ -661,7 +661,7 @@ def s9_convert_row(ctx, ck):
         else:
             ck.ob("C13-S9", fn, "letter-path-classifies-the-repeat-template", False, detail=str(arm))
     ck.ob("C13-S9", fn, "all-repeat-cases-present", rep_arms == {"Normal", "Disabled", "Special/Some", "Special/None"}, detail=str(sorted(rep_arms)))
-    ck.floor("C13-S9", "mapped-letter-paths", n_some, 4)
+    ck.floor("C13-S9", "mapped-letter-paths", n_some, 2)
     ck.floor("C13-S9", "unmapped-letter-paths", n_none, 1)
     # result: the accumulated vector
     oks = [p for p in mir.walk_function(b) if p.outcome[0] == "return" and isinstance(p.outcome[1], tuple) and p.outcome[1][0] == "agg" and p.outcome[1][2] == "Ok"]
